@@ -12,12 +12,15 @@ for ch in chains:
 for ch in chains[:20]:
     for lvl in range(len(ch)):
         cases.append((ch, "cron,sh", lvl))
+# appended (indices of the earlier cases stay stable): names with a newline byte (prctl(PR_SET_NAME) allows it; the kernel does not escape it in /proc/<pid>/stat)
+NL_CASES = [(("we\nird", "cron"), "cron", -1), (("nl\n", "sh", "cron"), "x,cron", -1), (("a\nb",), "a\nb", -1)]
+cases += NL_CASES
 if out == "--list":
     # run list for the runner: one run per case (a symbolic choice between concrete cases merges their states and does not finish, probed)
     import json
     runs = []
     for i, (ch, l, lvl) in enumerate(cases):
-        quick = (len(ch) == 1 and ch[0] in ("cron", "x)y")) or (ch == ("sh", "cron") and l in ("cron", "crond,sh")) or (lvl >= 0 and ch == ("cron",)) or (lvl == 1 and ch == ("sh", "cron"))
+        quick = (len(ch) == 1 and ch[0] in ("cron", "x)y")) or (ch == ("sh", "cron") and l in ("cron", "crond,sh")) or (lvl >= 0 and ch == ("cron",)) or (lvl == 1 and ch == ("sh", "cron")) or (ch, l, lvl) in NL_CASES[:1]
         r = {"id": "C15.spawns.case%03d" % i, "kind": "B", "bound": "ancestors (parent first) %s, list %r%s" % (list(ch), l, "" if lvl < 0 else ", /proc unreadable from level %d on" % lvl),
              "what": "real snoopy_filter_exclude_spawns_of vs ancestor-name membership reference with a /proc model", "generate": ["tools/gen_c15_cases.py", "{tmp}", str(i)],
              "sources": ["src/filter/exclude_spawns_of.c"], "verif_sources": ["harness/C15/spawns.c", "world/packC.c", "world/ghost.c"], "defines": ["VERIF_MALLOC_CHOICE"], "cbmc": ["--unwind", "90"], "no_conversion_check": True,
@@ -26,7 +29,7 @@ if out == "--list":
         runs.append(r)
     print(json.dumps(runs)); sys.exit(0)
 sel = [cases[chunk]]
-def cs(s): return '"' + s.replace("\\", "\\\\").replace('"', '\\"') + '"'
+def cs(s): return '"' + s.replace("\\", "\\\\").replace('"', '\\"').replace("\n", "\\n") + '"'
 lines = ["/* GENERATED: %d of %d cases (chunk %d) */" % (len(sel), len(cases), chunk), "#define NCASES %d" % len(sel), "#define CASES(X) \\"]
 lines.append(" \\\n".join("  X(%d, %d, %s, %s, %s, %s, %d)" % (i, len(ch), cs(ch[0]), cs(ch[1]) if len(ch) > 1 else '""', cs(ch[2]) if len(ch) > 2 else '""', cs(l), lvl) for i, (ch, l, lvl) in enumerate(sel)))
 open(out + "/c15_cases.h", "w").write("\n".join(lines) + "\n")
